@@ -41,7 +41,8 @@ RULE = ("e2e cases: methods (incl. extension methods) x request-targets with per
         "Content-Length / chunked / gzip-labelled x buffered or stream mode in each direction x IP or host-name server x keepHost x compression "
         "minLength {none,0,1,20,100,1000} with bodies at minLength-1/minLength/minLength+1 x Request/ResponseAdaptor body/compress/decompress x backend "
         "status x backend headers x response framing (Content-Length, chunked, close-delimited) x gzip-labelled responses and other Content-Encoding shapes (GZIP, x-gzip, `deflate, gzip` as one value or two lines, `gzip, gzip`, identity, "
-        "deflate, br, `br, gzip`, `gzip, br`) x response limits at pool / proxy level ((-1,L) (L,-1) (0,L) (L,0) (-1,0) (0,-1) (L,2L) (2L,L) (-1,-1), bodies at L-1/L/L+1/3L) x uploads the client "
+        "deflate, br, `br, gzip`, `gzip, br`) x response limits at pool / proxy level ((-1,L) (L,-1) (0,L) (L,0) (-1,0) (0,-1) (L,2L) (2L,L) (-1,-1), bodies at L-1/L/L+1/3L) (negative values -1, -2, -1024, MinInt64+1 at client, pool and proxy level: any negative streams) x a mirrorPool on a second backend matching X-Mirror "
+        "(1 case in 6) x uploads the client "
         "cuts off (announced length not reached, chunked without last-chunk; buffered and stream mode) x load-balance policy (none, roundRobin, random, weightedRandom with/without weights, ipHash, headerHash; one or two "
         "identical servers) for the Host rule; one case in 20 follows a label schedule (every Content-Encoding shape x ResponseAdaptor decompress buffered/stream, "
         "proxy compression, ResponseAdaptor compress, untouched); one case in 20 follows a boundary schedule: every body-transforming path (proxy compression, transparent gunzip, "
